@@ -137,14 +137,25 @@ def transposed(scene):
     return _map(scene, fn)
 
 
-def draw_pads(rng, maxpad=40):
-    """Independent pad widths 0..maxpad on each side with dx != dy (on purpose)."""
+def draw_pads(rng, maxpad=40, shape=None):
+    """Independent pad widths 0..maxpad on each side with dx != dy (on purpose). With `shape` = (ny, nx) of the scene,
+    35 % of the draws add extra padding along the SHORT axis so that the canvas has the opposite aspect of the scene
+    (a tall scene goes into a wide canvas and vice versa): code that confuses shape[0] with shape[1] clips
+    differently in the two frames."""
     while True:
         pl, pr, pb, pt = (int(v) for v in rng.integers(0, maxpad + 1, 4))
         if rng.random() < 0.15:
             pl = 0
         if rng.random() < 0.15:
             pb = 0
+        if shape is not None and rng.random() < 0.35:
+            ny, nx = shape
+            extra = abs(ny - nx) + int(rng.integers(10, 60))
+            a = int(rng.integers(0, extra + 1))
+            if ny > nx:
+                pl, pr = pl + a, pr + extra - a
+            else:
+                pb, pt = pb + a, pt + extra - a
         if pl != pb:
             return pl, pr, pb, pt
 
@@ -161,7 +172,7 @@ def gauss2d(yy, xx, x0, y0, amp, sx, sy, theta):
 
 
 def make_scene(rng, *, flavour='general', margin=MARGIN, integer=False, nonneg=False,
-               nsrc=None, core=None, max_sigma=2.6, nonfinite=False, round_sources=False, hostile=False):
+               nsrc=None, core=None, max_sigma=2.6, nonfinite=False, round_sources=False, hostile=False, elongated=None):
     """Random asymmetric scene.
 
     flavour: 'general' (3-8 elliptical Gaussians, some close pairs), 'stars' (round-ish, compact,
@@ -176,6 +187,13 @@ def make_scene(rng, *, flavour='general', margin=MARGIN, integer=False, nonneg=F
         cny, cnx = (int(v) for v in rng.integers(34, 60, 2))
         if cny == cnx:
             cnx += 3                                   # never square: a swapped shape must be visible
+        if elongated is None:
+            elongated = rng.random() < 0.4
+        if elongated:
+            # strongly elongated core (either direction): sources at the far end of the long axis have coordinates
+            # beyond the length of the short axis, cutout origins have x != y by large margins
+            lng, sht = int(rng.integers(90, 141)), int(rng.integers(34, 51))
+            cny, cnx = (lng, sht) if rng.random() < 0.5 else (sht, lng)
     else:
         cny, cnx = core
     ny, nx = cny + 2 * margin, cnx + 2 * margin
